@@ -23,9 +23,13 @@ type KH struct {
 	// acknowledged, so that the crash hits a node that already holds a big tree
 	AfterFirst bool       `json:"after_first,omitempty"`
 	Tail       []rig.Step `json:"tail"`
+	// DuringWrite > 0: instead of the parent's kill, the node kills itself DuringUs microseconds
+	// after its DuringWrite-th store write entered RocksDB
+	DuringWrite int `json:"during_write,omitempty"`
+	DuringUs    int `json:"during_us,omitempty"`
 }
 
-const ruleKill = "wall-clock crash class: a single-node RaftNode (executor child) runs a background stream of 10-60 insertions (single or bulk up to 4; one stream in two starts with a bulk of 1100-1600 events, and is killed 0-2500 ms after the start or 0-300 ms after that bulk was acknowledged), journalling 'sent i' / 'acked i at version v' to an append-only file; the parent SIGKILLs the child after a drawn delay (0-300 ms), restarts the node on the same directories and lets it replay. Oracle (independent of where the kill landed): the recovered version V satisfies acknowledged <= V <= acknowledged + the one insertion in flight; V is a whole number of insertions (no partial bulk); the first V events of the stream are exactly the log (membership of each at its own version verifies against the reference model's digests, the next stream event is unknown); three more insertions are acknowledged with the reference digests. evaluations = kills. Non-trivial: the kill landed while the stream was running (some but not all insertions acknowledged). distinct = FNV-64 of the case (+ observed landing point)."
+const ruleKill = "wall-clock crash class: a single-node RaftNode (executor child) runs a background stream of 10-60 insertions (single or bulk up to 4; one stream in two starts with a bulk of 1100-1600 events, and is killed 0-2500 ms after the start or 0-300 ms after that bulk was acknowledged), journalling 'sent i' / 'acked i at version v' to an append-only file; the parent SIGKILLs the child after a drawn delay (0-300 ms) - or, one case in two, the node SIGKILLs itself a drawn 0-60000 us after its k-th store write entered RocksDB (aimed inside the write; k=1 is the big bulk) - restarts the node on the same directories and lets it replay. Oracle (independent of where the kill landed): the recovered version V satisfies acknowledged <= V <= acknowledged + the one insertion in flight; V is a whole number of insertions (no partial bulk); the first V events of the stream are exactly the log (membership of each at its own version verifies against the reference model's digests, the next stream event is unknown); three more insertions are acknowledged with the reference digests. evaluations = kills. Non-trivial: the kill landed while the stream was running (some but not all insertions acknowledged). distinct = FNV-64 of the case (+ observed landing point)."
 
 func TestKillAnytime(t *testing.T) {
 	rec := pbt.NewRec("C07", "TestKillAnytime", ruleKill, "SIGKILL keeps the page cache: no torn writes")
@@ -59,6 +63,17 @@ func TestKillAnytime(t *testing.T) {
 			}
 		}
 		h.Tail = rig.DrawAdds(rt, 3, 3, "kt")
+		// one case in two aims the kill INSIDE a store write: the node kills itself a drawn
+		// number of microseconds after its k-th write entered RocksDB (k=1 is the big bulk)
+		if rapid.Bool().Draw(rt, "during-write") {
+			if big > 0 {
+				h.DuringWrite = 1
+				h.DuringUs = rapid.IntRange(0, 60000).Draw(rt, "during-us-big")
+			} else {
+				h.DuringWrite = rapid.IntRange(1, 8).Draw(rt, "during-k")
+				h.DuringUs = rapid.IntRange(0, 3000).Draw(rt, "during-us")
+			}
+		}
 		return h
 	}, execKill)
 }
@@ -76,7 +91,11 @@ func execKill(h KH, rec *pbt.Rec) error {
 		}
 	}()
 	opts := xp.NodeOpts{Dir: dir, Bootstrap: true, TimeoutMs: 150, SnapshotThreshold: 1 << 30}
-	n, err := rig.OpenNode(x, "n", opts)
+	first := opts
+	if h.DuringWrite > 0 {
+		first.Plan = xp.Plan{KillDuring: h.DuringWrite, KillDelayUs: h.DuringUs}
+	}
+	n, err := rig.OpenNode(x, "n", first)
 	if err != nil {
 		return un("open: %v", err)
 	}
@@ -91,7 +110,16 @@ func execKill(h KH, rec *pbt.Rec) error {
 	if _, err := x.Call(&xp.Req{Op: "node-stream", Name: "n", Path: journal, Chunks: chunks}, 10*time.Second); err != nil {
 		return un("stream: %v", err)
 	}
-	if h.AfterFirst {
+	if h.DuringWrite > 0 {
+		// the node kills itself inside its k-th store write; wait for that (the stream may be too short to reach it)
+		for i := 0; i < 1500; i++ {
+			if _, err := x.Call(&xp.Req{Op: "ping"}, 5*time.Second); err != nil {
+				rec.Class("kill-inside-store-write", 1)
+				break
+			}
+			time.Sleep(20 * time.Millisecond)
+		}
+	} else if h.AfterFirst {
 		for i := 0; i < 3000; i++ {
 			if b, err := os.ReadFile(journal); err == nil && strings.Contains(string(b), "A 0 ") {
 				break
@@ -99,7 +127,9 @@ func execKill(h KH, rec *pbt.Rec) error {
 			time.Sleep(20 * time.Millisecond)
 		}
 	}
-	time.Sleep(time.Duration(h.DelayMs) * time.Millisecond)
+	if h.DuringWrite == 0 {
+		time.Sleep(time.Duration(h.DelayMs) * time.Millisecond)
+	}
 	x.Kill()
 	x = nil
 	// what the client saw
@@ -149,6 +179,9 @@ func execKill(h KH, rec *pbt.Rec) error {
 		time.Sleep(20 * time.Millisecond)
 	}
 	tag := fmt.Sprintf("SIGKILL %d ms into a stream of %d insertions (journal: %d acknowledged, %d sent)", h.DelayMs, len(h.Bulks), acked, sent)
+	if h.DuringWrite > 0 {
+		tag = fmt.Sprintf("SIGKILL %d us after store write %d of a stream of %d insertions entered RocksDB (journal: %d acknowledged, %d sent)", h.DuringUs, h.DuringWrite, len(h.Bulks), acked, sent)
+	}
 	lo := len(events(acked))
 	hi := lo
 	if sent > acked {
